@@ -26,6 +26,10 @@ type ParsedSender struct {
 	FrameSizes []int
 	BadTag  bool
 	Trailing int
+	// MuxBase: BytesIn value at which the multiplexed part starts (offsets of
+	// replies are relative to the demultiplexed stream: subtract MuxBase)
+	MuxBase int64
+	PreambleLen int // raw bytes before the first frame
 }
 
 // ParseServerSenderStream decodes what a server-side sender wrote.
@@ -241,6 +245,8 @@ func ParseSenderStream(wire []byte, so SenderStreamOpts, o ListOpts) (*ParsedSen
 			return ps, err
 		}
 	}
+	ps.MuxBase = w.BytesIn
+	ps.PreambleLen = int(w.BytesIn)
 	if so.Mux {
 		d := w.EnableDemux()
 		d.OnFrame = func(tag, n int) {
